@@ -150,6 +150,13 @@ func (f *FileOutputHandler) Load(
 	if err := os.MkdirAll(filepath.Dir(absOutputPath), 0755); err != nil {
 		return err
 	}
+	// A directory sitting where the file belongs is replaced, just like the
+	// directory handler replaces a file that sits where its directory belongs
+	if fileInfo, err := os.Lstat(absOutputPath); err == nil && fileInfo.IsDir() {
+		if err := os.RemoveAll(absOutputPath); err != nil {
+			return fmt.Errorf("failed to remove directory %s: %w", absOutputPath, err)
+		}
+	}
 	outputFile, err := os.Create(absOutputPath)
 	if err != nil {
 		return err
